@@ -375,7 +375,15 @@ Consider(p) ==
                    /\ UNCHANGED <<fs, tmp, clock, w, runid, locks, cmd, hist, ran, ncmds, pool, gh>>
                 ELSE
                    LET w1 == FromName(w, t) IN
-                   IF ~P.unl /\ t \in P.cyc THEN ErrorExit(p, 208, w1)
+                   IF ~P.unl /\ t \in P.cyc THEN
+                      \* try_lock: the target is being built by an ancestor (dependency cycle).  It fails like a
+                      \* job (208): the jobs already started are still waited for
+                      /\ w' = w1
+                      /\ procs' = [procs EXCEPT ![p] = [nxt EXCEPT !.jobs = @ \cup
+                                      {[JobRec(t, "imm", Load(w1, EnvOf(p), t), CurStamp(fs, t), NoPid)
+                                            EXCEPT !.st = "exited", !.rv = 208]}]]
+                      /\ gh' = [gh EXCEPT !.fails = @ \cup {t}]
+                      /\ UNCHANGED <<fs, tmp, clock, runid, locks, cmd, hist, ran, ncmds, pool>>
                    ELSE IF ~P.unl /\ locks[t] # NoPid THEN
                       /\ w' = w1
                       /\ procs' = [procs EXCEPT ![p] = [nxt EXCEPT !.queue = Append(@, t)]]
